@@ -35,7 +35,8 @@
      AlgRot           HexGrid.rotateIndex             (in SymLattice)   deque((i,j,-(i+j))).rotate(-k), negate if k odd
      AlgRotNum        hexagon.getIndexOfRotatedCell                     n + (ring-1) k, wrapped inside the ring
 
-   STATE MACHINE    state = (o, c): grid orientation and a cell within N rings; every such pair is initial.
+   STATE MACHINE    state = (o, c, kz, sp): grid orientation, a cell within N rings, the axial index of the location (0..2) and
+                    the spelling of the grid's symmetry string; every such tuple (or one kz / sp per cell) is initial.
      Rotate(k)      the only mutator of the subsystem: HexGrid.rotateIndex(loc, k), k in KSet (-K..K plus a few
                     large magnitudes of both signs; the statement quantifies over all k in Z).
      act            the last action (with the cell it started from) so that the laws about one rotation step are
@@ -49,7 +50,8 @@
                                                                               FirstThirdIsSector, EquivalentsClosed
      rotateIndex(k) turns the coordinates by k*60 degrees ccw .............. RotateIsGeometric
      composes additively / identity at 6 / preserves the ring .............. RotateAdditive, RotateSixIsIdentity,
-                                                                              RotatePreservesRing
+                                                                              RotatePreservesRing, RotateKeepsAxial (the
+                                                                              axial index and z of the location stay)
      cell-number rotation (getIndexOfRotatedCell) .......................... CellNumberRotation
      (auxiliary) ring/position numbering is the ccw walk it is said to be .. RingPosIsCcwWalk
 
@@ -67,10 +69,12 @@ EXTENDS SymLattice, TLC, Json
 CONSTANTS N,          \* number of hex rings (cells with ring <= N)
           K,          \* rotation steps -K..K
           BigK,       \* set of large positive step counts, used with both signs
+          AllKz,      \* TRUE: every axial index 0..2 for every cell; FALSE: one per cell ((i - j) mod 3: all three occur)
+          AllSp,      \* TRUE: every spelling of the symmetry for every cell; FALSE: one per cell ((i + 3j) mod 4)
           MaxLevel
 
-VARIABLES o, c, act
-vars == <<o, c>>
+VARIABLES o, c, kz, sp, act
+vars == <<o, c, kz, sp>>
 
 Orients == {"flat", "corner"}
 KSet    == (-K..K) \cup BigK \cup {-b : b \in BigK}
@@ -123,14 +127,24 @@ AlgRotNum(n, k)  == IF n = 1 \/ k = 0 THEN n
                          IN  IF new > TotalUpToRing(ring) THEN new - (ring - 1) * 6 ELSE new
 
 (* ------------------------------------------------ machine ------------------------------------------------ *)
-Init == o \in Orients /\ c \in Cells /\ act = [n |-> "Init", k |-> 0, from |-> c]
+\* kz: the axial index of the location handed to rotateIndex (a rotation about z leaves it, and z, alone).
+\* sp: how the grid's symmetry was SPELLED when the grid was made (SymmetryType.fromStr is case-insensitive and ignores the words
+\*     "core" and "assembly"); no query result depends on it -- it is part of the state so that every emitted case names one.
+KzSet      == 0..2
+Spellings  == <<"canonical", "title", "upper", "short">>
+KzOf(cc)   == IF AllKz THEN KzSet ELSE {(cc[1] - cc[2]) % 3}
+SpOf(cc)   == IF AllSp THEN {Spellings[x] : x \in 1..4} ELSE {Spellings[((cc[1] + 3 * cc[2]) % 4) + 1]}
+InitLike   == kz \in KzOf(c) /\ sp \in SpOf(c)
+Init == /\ o \in Orients /\ c \in Cells
+        /\ InitLike
+        /\ act = [n |-> "Init", k |-> 0, from |-> c, kz |-> kz]
 Rotate(k) == /\ c' = AlgRot(k, c)
-             /\ act' = [n |-> "Rotate", k |-> k, from |-> c]
-             /\ UNCHANGED o
+             /\ act' = [n |-> "Rotate", k |-> k, from |-> c, kz |-> kz]
+             /\ UNCHANGED <<o, kz, sp>>          \* IndexLocation(newI, newJ, k, loc.grid): axial index and grid kept
 Next == \E k \in KSet : Rotate(k)
 
 (* ----------------------------------------------- invariants ----------------------------------------------- *)
-TypeOK == o \in Orients /\ c \in Cells /\ act.from \in Cells /\ act.k \in KSet \cup {0}
+TypeOK == o \in Orients /\ c \in Cells /\ act.from \in Cells /\ act.k \in KSet \cup {0} /\ kz \in KzSet
 
 SeqRange(s) == {s[x] : x \in 1..Len(s)}
 
@@ -198,6 +212,7 @@ RotateIsGeometric == act.n = "Rotate" =>
 RotateAdditive == act.n = "Rotate" => \A k2 \in KSet : AlgRot(k2, c) = AlgRot(k2 + act.k, act.from)
 RotateSixIsIdentity == /\ AlgRot(6, c) = c /\ AlgRot(-6, c) = c /\ AlgRot(0, c) = c
                        /\ act.n = "Rotate" => AlgRot(act.k + 6, act.from) = c /\ AlgRot(act.k - 6, act.from) = c
+RotateKeepsAxial == act.n = "Rotate" => kz = act.kz         \* the axial level (hence z) is not touched by a rotation about z
 RotatePreservesRing == act.n = "Rotate" => SymRing(c) = SymRing(act.from) /\ AlgRingPos(c)[1] = AlgRingPos(act.from)[1]
 
 (* ---------------------------------- observations printed for the harness ---------------------------------- *)
@@ -215,5 +230,5 @@ Obs == [xy       |-> SymXY(o, c),
         inDomainOverlap |-> GeoInSector(o, c, TRUE),
         line     |-> GeoLine(o, c),
         orbitInDomain |-> SortedCells({d \in GeoOrbit3(o, c) : GeoInSector(o, d, FALSE)})]
-Vars == [o |-> o, c |-> c]
+Vars == [o |-> o, c |-> c, kz |-> kz, sp |-> sp]
 =============================================================================================================
